@@ -416,6 +416,9 @@ def targeted(ctx, camp):
         ("fanin2-parallel", [0, 1, 2], [(0, 2, "pos"), (1, 2, "pos"), (1, 2, "dep")]),
         ("diamond", [0, 1, 2, 3], [(0, 1, "pos"), (0, 2, "pos"), (1, 3, "pos"), (2, 3, "kw")]),
         ("chain-fail-mid", [0, 1, 2, 3], [(0, 1, "pos"), (1, 2, "pos"), (2, 3, "pos"), (0, 3, "dep")]),
+        # a join W of two predecessors feeding a second join Y whose other predecessor Z is independent:
+        # a duplicated W would release Y while Z is still running
+        ("double-join", [0, 1, 2, 3, 4], [(0, 3, "pos"), (1, 3, "pos"), (3, 4, "pos"), (2, 4, "pos")]),
     ]
     for name, nodes, edges in shapes:
         for workers in (1, 2, 3):
